@@ -1,29 +1,192 @@
-import Robust.Irc.Snapshot
+import Robust.Irc.Proofs.SnapshotLemmas
 import Robust.Gen.Serialize
 /-!
-# C03 — state serialization is complete: save + load is invisible
+C03 — state serialization is complete: `IRCServer.Marshal` followed by `IRCServer.Unmarshal`
+into a fresh instance (`saveLoad`) is invisible at the level of the restored state.
+
+`Canon` (defined next to its lemmas in `Robust.Irc.Proofs.SnapshotLemmas`, as the Boolean
+`canonB`) is the well-formedness beyond `Inv` that the round trip needs:
+
+* for every stored session: the invitations are lower-cased channel names; the channel list of a
+  *nickless* session is lower-cased (for a session with a nickname `Inv` already forces it);
+  `created > 0` or `created = id.id` (the value `Unmarshal` falls back to); `lastNonPing` is
+  not the zero time or `lastActivity` is the zero time too (the fallback value);
+* the nick index has no entry under `""` (`Inv` tolerates a nickless session indexed under `""`;
+  `Unmarshal` only indexes sessions with a nickname);
+* the keys of `svsholds` are duplicate-free and fixed by `nickToLower`.
+
+`serverSessions` is unconstrained: it is rebuilt from the sessions.
 -/
 namespace Robust.Props.C03
-open Robust Robust.Irc Robust.Gen.Serialize
+open Robust Robust.Irc
 
 theorem C03_fresh : saveLoad ({} : St) = ({} : St) := by decide
 
-/-- regenerated from serialize.go and the struct declarations: Unmarshal restores every field of
-`Session` (except the transient `deleted` mark), `channel`, `banPattern`, `svshold` and
-`config.Network`; a field added to one of these structs without serialization breaks this. -/
+/-- the serialized part of a channel besides the member map -/
+def chanCore (c : Channel) : String × String × String × Int × List Char × String × List Ban :=
+  (c.name, c.topic, c.topicNick, c.topicTime, c.modes, c.key, c.bans)
+
+/-- the strong form: the session, channel and hold *lists* are restored verbatim (same order);
+the nick index and `serverSessions` are rebuilt from the sessions (same content, own order) -/
+theorem C03_state_strong (st : St) (hI : Inv st) (hC : Canon st) :
+    saveLoad st = { st with nicks := rebuiltNicks st.sessions, serverSessions := rebuiltServers st.sessions } ∧
+    (AMap.keys (rebuiltNicks st.sessions)).Nodup ∧
+    (∀ lc, AMap.get (rebuiltNicks st.sessions) lc = AMap.get st.nicks lc) ∧
+    (∀ n, n ∈ rebuiltServers st.sessions ↔
+      ∃ id s, AMap.get st.sessions id = some s ∧ s.server = true ∧ id.id = n) :=
+  ⟨saveLoad_eq hI hC, nodup_rebuiltNicks _, get_rebuiltNicks hI hC, mem_rebuiltServers hI⟩
+
+/-- the restored state is pointwise the same state -/
+theorem C03_state (st : St) (hI : Inv st) (hC : Canon st) :
+    (∀ id, AMap.get (saveLoad st).sessions id = AMap.get st.sessions id) ∧
+    (∀ lc, AMap.get (saveLoad st).nicks lc = AMap.get st.nicks lc) ∧
+    (∀ lc, Option.map chanCore (AMap.get (saveLoad st).channels lc) =
+           Option.map chanCore (AMap.get st.channels lc)) ∧
+    (∀ lc c c', AMap.get (saveLoad st).channels lc = some c' → AMap.get st.channels lc = some c →
+       ∀ n, AMap.get c'.nicks n = AMap.get c.nicks n) ∧
+    (∀ lc, AMap.get (saveLoad st).svsholds lc = AMap.get st.svsholds lc) ∧
+    (saveLoad st).lastProcessed = st.lastProcessed ∧
+    (saveLoad st).config = st.config ∧
+    (saveLoad st).serverName = st.serverName ∧
+    (∀ n, n ∈ (saveLoad st).serverSessions ↔
+       ∃ id s, AMap.get st.sessions id = some s ∧ s.server = true ∧ id.id = n) := by
+  refine ⟨?_, ?_, ?_, ?_, ?_, rfl, rfl, rfl, ?_⟩
+  · intro id; rw [saveLoad_sessions hI hC]
+  · intro lc; rw [saveLoad_nicks]; exact get_rebuiltNicks hI hC lc
+  · intro lc; rw [saveLoad_channels hI]
+  · intro lc c c' h' h n
+    rw [saveLoad_channels hI, h] at h'
+    cases h'; rfl
+  · intro lc; rw [saveLoad_svsholds hC]
+  · intro n; rw [saveLoad_serverSessions]; exact mem_rebuiltServers hI n
+
+/-- the restored state satisfies the invariants again -/
+theorem C03_inv (st : St) (hI : Inv st) (hC : Canon st) : Inv (saveLoad st) ∧ Canon (saveLoad st) := by
+  constructor
+  · exact hI.of_get_nicks_eq (saveLoad_sessions hI hC) (saveLoad_channels hI)
+      (fun lc => by rw [saveLoad_nicks]; exact get_rebuiltNicks hI hC lc)
+      (by rw [saveLoad_nicks]; exact nodup_rebuiltNicks _)
+  · rw [canon_iff, saveLoad_sessions hI hC, saveLoad_svsholds hC, saveLoad_nicks, get_rebuiltNicks hI hC]
+    exact (canon_iff st).1 hC
+
+/-- a second round trip changes nothing at all (not even the order of any list) -/
+theorem C03_idempotent (st : St) (hI : Inv st) (hC : Canon st) : saveLoad (saveLoad st) = saveLoad st := by
+  obtain ⟨hI', hC'⟩ := C03_inv st hI hC
+  have h := saveLoad_eq hI' hC'
+  have h2 := congrArg (fun ss => ({ saveLoad st with nicks := rebuiltNicks ss, serverSessions := rebuiltServers ss } : St))
+    (saveLoad_sessions hI hC)
+  exact h.trans h2
+
+/-! ### every field is written and restored (generated from the Go source on each run) -/
+
+open Robust.Gen.Serialize in
+/-- `Unmarshal` restores every field of the Go structs (`Session` except `deleted`, which
+`Marshal` filters on) -/
 theorem C03_fields :
-    (lookup structFields "Session").filter (· != "deleted") = lookup literals "Unmarshal:Session" ∧
+    (lookup structFields "Session").filter (· ≠ "deleted") = lookup literals "Unmarshal:Session" ∧
     lookup structFields "channel" = lookup literals "Unmarshal:channel" ∧
-    lookup structFields "banPattern" = lookup literals "Unmarshal:banPattern" ∧
     lookup structFields "svshold" = lookup literals "Unmarshal:svshold" ∧
+    lookup structFields "banPattern" = lookup literals "Unmarshal:banPattern" ∧
     lookup structFields "config.Network" = lookup literals "Unmarshal:config.Network" := by decide
 
-/-- regenerated: what Marshal writes -/
-theorem C03_marshal_fields :
-    lookup literals "Marshal:pb.Snapshot" = ["Channels", "Config", "LastIncludedIndex", "LastProcessed", "Sessions", "Svsholds"] ∧
+open Robust.Gen.Serialize in
+/-- the fields `Marshal` sets in the protobuf literals -/
+theorem C03_fields_marshal :
+    lookup literals "Marshal:pb.Snapshot_Session" =
+      ["Auth", "AwayMsg", "Channels", "Created", "Id", "InvitedTo", "IrcPrefix", "LastActivity",
+       "LastClientMessageId", "LastNonPing", "LastSolvedCaptcha", "LoggedIn", "Modes", "Nick", "Operator",
+       "Pass", "Realname", "RemoteAddr", "Server", "Svid", "ThrottlingExponent", "Username"] ∧
+    lookup literals "Marshal:pb.Snapshot_Channel" =
+      ["Bans", "Key", "Modes", "Name", "Nicks", "Topic", "TopicNick", "TopicTime"] ∧
+    lookup literals "Marshal:pb.Snapshot_Config" =
+      ["Banned", "CaptchaHmacSecret", "CaptchaRequiredForLogin", "CaptchaUrl", "Irc", "MaxChannels",
+       "MaxSessions", "PostMessageCooloff", "Revision", "SessionExpiration", "TrustedBridges",
+       "WhitelistedOrigins"] ∧
+    lookup literals "Marshal:pb.Snapshot" =
+      ["Channels", "Config", "LastIncludedIndex", "LastProcessed", "Sessions", "Svsholds"] ∧
+    lookup literals "Marshal:pb.Snapshot_SVSHold" = ["Added", "Duration", "Reason"] ∧
+    lookup literals "Marshal:pb.Snapshot_Channel_BanPattern" = ["Pattern", "Regexp"] := by decide
+
+open Robust.Gen.Serialize in
+/-- the sizes of the `Marshal` literals -/
+theorem C03_fields_count :
     (lookup literals "Marshal:pb.Snapshot_Session").length = 22 ∧
     (lookup literals "Marshal:pb.Snapshot_Channel").length = 8 ∧
     (lookup literals "Marshal:pb.Snapshot_Config").length = 12 ∧
-    (lookup literals "Marshal:pb.Snapshot_SVSHold").length = 3 := by decide
+    (lookup literals "Marshal:pb.Snapshot").length = 6 := by decide
+
+/-- every name of `fs` occurs (case-insensitively: `CaptchaURL`/`CaptchaUrl`, `auth`/`Auth`) in `ws` -/
+def allWritten (fs ws : List String) : Bool := fs.all fun f => (ws.map toLower).contains (toLower f)
+
+open Robust.Gen.Serialize in
+/-- `Marshal` writes every field of the Go structs (`Session` except `deleted`; the ban
+pattern's `re` is written as `Regexp`) -/
+theorem C03_fields_written :
+    allWritten ((lookup structFields "Session").filter (· ≠ "deleted")) (lookup literals "Marshal:pb.Snapshot_Session") = true ∧
+    allWritten (lookup structFields "channel") (lookup literals "Marshal:pb.Snapshot_Channel") = true ∧
+    allWritten (lookup structFields "svshold") (lookup literals "Marshal:pb.Snapshot_SVSHold") = true ∧
+    allWritten (lookup structFields "config.Network") (lookup literals "Marshal:pb.Snapshot_Config") = true ∧
+    (lookup structFields "banPattern").length = (lookup literals "Marshal:pb.Snapshot_Channel_BanPattern").length := by
+  decide +kernel
+
+/-! ### non-vacuity: a concrete state satisfying `Inv` and `Canon` -/
+
+/-- a nickless session, "Alice" (chanop on `#C`, invited to `#d`), a server session, a hold -/
+def exSt : St :=
+  { sessions := [
+      (⟨1, 0⟩, { id := ⟨1, 0⟩, created := 1, lastActivity := 5, lastNonPing := 5 }),
+      (⟨2, 0⟩, { id := ⟨2, 0⟩, nick := "Alice", username := "a", channels := ["#c"], invitedTo := ["#d"],
+                 created := 2, lastActivity := 9, lastNonPing := 7, loggedIn := true,
+                 ircPrefix := ⟨"Alice", "a", "robust/0x2"⟩ }),
+      (⟨3, 0⟩, { id := ⟨3, 0⟩, nick := "Services[x]", server := true, created := 3, lastActivity := 4, lastNonPing := 4 })],
+    nicks := [("services{x}", ⟨3, 0⟩), ("alice", ⟨2, 0⟩)],
+    channels := [("#c", { name := "#C", topic := "t", topicNick := "Alice", topicTime := 8,
+                          nicks := [("alice", { chanop := true })], modes := ['n', 't'],
+                          bans := [⟨"*!*@evil", "^.*!.*@evil$"⟩] })],
+    svsholds := [("bob", ⟨10, 20, "reserved"⟩)],
+    serverSessions := [3],
+    lastProcessed := ⟨7, 1⟩ }
+
+theorem exSt_inv : Inv exSt := inv_of_invSuffB (by decide)
+theorem exSt_canon : Canon exSt := by decide
+
+/-- the theorems apply to it -/
+example : saveLoad (saveLoad exSt) = saveLoad exSt := C03_idempotent exSt exSt_inv exSt_canon
+example : Inv (saveLoad exSt) ∧ Canon (saveLoad exSt) := C03_inv exSt exSt_inv exSt_canon
+
+/-- the model's executable invariant (C14) holds too -/
+example : invB exSt = true := by decide
+
+/-- on this state only the order of the nick index changes -/
+example : saveLoad exSt = { exSt with nicks := [("alice", ⟨2, 0⟩), ("services{x}", ⟨3, 0⟩)] } := by decide
+example : saveLoad exSt ≠ exSt := by decide
+example : ∀ lc ∈ ["alice", "services{x}", "Alice", "", "bob"],
+    AMap.get (saveLoad exSt).nicks lc = AMap.get exSt.nicks lc := by decide
+example : AMap.get (saveLoad exSt).nicks "alice" = some ⟨2, 0⟩ ∧
+    AMap.get (saveLoad exSt).nicks "services{x}" = some ⟨3, 0⟩ ∧
+    (saveLoad exSt).serverSessions = [3] ∧
+    (saveLoad exSt).sessions = exSt.sessions ∧ (saveLoad exSt).channels = exSt.channels ∧
+    (saveLoad exSt).svsholds = exSt.svsholds := by decide
+
+/-- the extra conditions of `Canon` are needed: `Inv` tolerates a nickless session indexed under
+`""`, and the round trip drops that index entry -/
+def exEmptyNick : St :=
+  { sessions := [(⟨1, 0⟩, { id := ⟨1, 0⟩, created := 1, lastActivity := 5, lastNonPing := 5 })],
+    nicks := [("", ⟨1, 0⟩)] }
+
+theorem exEmptyNick_inv : Inv exEmptyNick := inv_of_invSuffB (by decide)
+example : canonB exEmptyNick = false := by decide
+example : AMap.get exEmptyNick.nicks "" = some ⟨1, 0⟩ ∧ AMap.get (saveLoad exEmptyNick).nicks "" = none := by decide
+
+/-- … and a nickless session may list a channel that is not lower-cased (or `created = 0`,
+`lastNonPing` zero, an invitation that is not lower-cased, a hold under a key that is not
+lower-cased): the restored session differs -/
+def exNotCanon : St :=
+  { sessions := [(⟨1, 0⟩, { id := ⟨1, 0⟩, channels := ["#X"], lastActivity := 5 })] }
+
+theorem exNotCanon_inv : Inv exNotCanon := inv_of_invSuffB (by decide)
+example : canonB exNotCanon = false := by decide
+example : AMap.get (saveLoad exNotCanon).sessions ⟨1, 0⟩ =
+    some { id := ⟨1, 0⟩, channels := ["#x"], lastActivity := 5, lastNonPing := 5, created := 1 } := by decide
 
 end Robust.Props.C03
